@@ -6,7 +6,7 @@ VERIF = os.path.dirname(os.path.dirname(os.path.abspath(__file__)))
 
 # id -> (technique, level text, level note, design ref)
 CHECKS = {
-    "C01": ("model-based history search: exhaustive BFS over all operation sequences of length <= 3/4 + Hypothesis-generated operation lists, dict-of-lists reference model checked after every step",
+    "C01": ("model-based history search: exhaustive BFS over all operation sequences of length <= 3/4 over a 15-op alphabet + Hypothesis-generated operation lists (expressions with external scalars re-evaluated with other values, shift operators in place, two tracks), dict-of-lists reference model checked after every step",
             "Histories of feature-table calls (create/update/remove, bracket forms, operator objects, expressions) are interpreted against a "
             "dict model; after every step listed names, per-observation column counts, every value read by name and by (name, index), "
             "coordinates and timestamps are compared with the model. All sequences up to the depth bound are enumerated; longer ones sampled.",
@@ -18,63 +18,63 @@ CHECKS = {
             "1e-9 otherwise; effects of '=' (create / overwrite / coordinate) and absence of side effects are compared on full track snapshots.",
             "Trusts vt.exprs.evaluate (Python arithmetic) as the meaning of the documented operators; undefined or numerically fragile arithmetic is not judged.",
             "DESIGN.md 4/C02"),
-    "C03": ("exhaustive enumeration of all 47 482 days + per-second boundary days + Hypothesis pairs/offsets, differential against Python datetime/calendar",
+    "C03": ("exhaustive enumeration of all 47 482 days + per-second boundary days + Hypothesis pairs/offsets + object histories (convert, edit fields in place, copy, convert again), differential against Python datetime/calendar",
             "Every calendar day 1970-2099 is converted in both directions at five instants and compared field by field with Python's "
             "datetime; boundary days are swept per second; ordering and offsets are sampled with calendar-boundary-weighted generators. "
             "Complete for day-level defects inside the stated range, sampled for sub-second and pair behaviour.",
             "Trusts Python datetime/calendar as the proleptic Gregorian reference; domain 1970..2099, zone 0.",
             "DESIGN.md 4/C03"),
-    "C04": ("exhaustive enumeration of every (size <= 33, insertion slot) pair + Hypothesis-generated tracks/arguments and operation histories, Python list-of-records reference model",
+    "C04": ("exhaustive enumeration of every (size <= 33, insertion slot) pair + Hypothesis-generated tracks/arguments (feature tables in any creation order), follow-up edits on result/source to expose aliasing, and operation histories; Python list-of-records reference model",
             "Sort, chronological insertion, extract, time-span extraction, +, %, >, <, removeObsList are compared with the corresponding Python list "
             "expression on records (position, time, features, object identity), source track checked unmodified; histories of insert/remove/sort run against the list model.",
             "Trusts the list model; stability of sort, negative indices and n > size are not demanded.", "DESIGN.md 4/C04"),
-    "C05": ("Hypothesis-generated irregular ENU tracks and step specifications, differential against an independent bisect/linear interpolation and a polyline walk",
+    "C05": ("Hypothesis-generated irregular ENU tracks (float and Python-int coordinates, pre-histories leaving fresh or stale derived features, reference tracks reused and edited in place) and step specifications, differential against an independent bisect/linear interpolation and a polyline walk",
             "Temporal resampling: one output per requested instant in (t0, tn], position = own linear interpolation, stamp within 1 ms. Spatial: first fix, count, "
             "every point on the 2D polyline at abscissa k*ds with interpolated z and t; exact-length lattice tracks make 'ds divides L' meaningful.",
             "Trusts the own interpolant; cases decided by rounding at an exact boundary are excluded and counted.", "DESIGN.md 4/C05"),
-    "C06": ("exhaustive enumeration of all small multigraphs (<= 3 nodes, <= 2/3 edges, weights {0,1,2}, 3 orientations) + Hypothesis multigraphs, differential against Floyd-Warshall",
+    "C06": ("exhaustive enumeration of all small multigraphs (<= 3 nodes, <= 2/3 edges, weights {0,1,2}, 3 orientations; also built edge by edge with queries after each addEdge) + Hypothesis multigraphs and histories on one Network object (staged construction, interleaved queries, sub-network searches, A* on admissible weights), differential against Floyd-Warshall over the edges present at that time",
             "Every ordered pair's distance, the unreachable sentinel, single-source lists, and the cut-off tables (key set and values) are compared with Floyd-Warshall over the permitted arcs.",
             "Trusts the own Floyd-Warshall; cut-offs within rounding of a distance only on exactly representable weights.", "DESIGN.md 4/C06"),
-    "C07": ("same graph spaces as C06; validity predicate (hop-by-hop walk + geometry chain matcher) plus optimal value from Floyd-Warshall",
+    "C07": ("same graph spaces and histories as C06; validity predicate (hop-by-hop walk + geometry chain matcher) plus optimal value from Floyd-Warshall",
             "A returned path is accepted iff it starts/ends at the requested nodes, every hop is an existing edge traversable in that direction, the geometry is those "
             "edges chained in travel direction without repeated junction vertices, and the weights sum to the true shortest distance; None iff unreachable.",
             "Many shortest paths are correct: validity + optimal value are checked, never one expected path.", "DESIGN.md 4/C07"),
-    "C08": ("Hypothesis-generated collections/networks and queries on a lattice aligned with cell borders, one-directional oracle (own segment-cell clipping and point-polyline distance)",
+    "C08": ("Hypothesis-generated collections/networks (built in one go, incrementally, or re-indexed after late features) and queries on a lattice aligned with cell borders, preceded by other queries on the same index object; one-directional oracle (own segment-cell clipping and point-polyline distance)",
             "No-false-negative oracle only: every feature geometrically present in the queried cell / crossed cells / within ground distance d must be returned; extra candidates never fail.",
             "Trusts the own clipping with a 1e-9 cell-unit shrink (grazing contacts are not demanded).", "DESIGN.md 4/C08"),
-    "C09": ("exhaustive enumeration of small HMMs (T <= 2/3, S <= 2, likelihoods {0, 1/2, 1}) + Hypothesis HMMs, brute-force enumeration of all state sequences as oracle; log-domain metamorphic relation",
+    "C09": ("exhaustive enumeration of small HMMs (T <= 2/3, S <= 2, likelihoods {0, 1/2, 1}) + Hypothesis HMMs (fresh / shared candidate list objects, the same track decoded repeatedly), brute-force enumeration of all state sequences as oracle; log-domain metamorphic relation",
             "Decoded sequence must consist of candidate states, attain the minimum of the documented cost over all S^T sequences, and the recorded final cost must equal it; "
             "the log-likelihood form must decode a sequence of equal cost.",
             "Trusts the brute-force enumeration with the documented 1e-300 smoothing.", "DESIGN.md 4/C09"),
-    "C10": ("Hypothesis-generated small road networks, indexes and tracks; validity predicate (own point-on-polyline test, radius, abscissa sums)",
+    "C10": ("Hypothesis-generated small road networks (with heights), indexes and tracks, several matching calls per network (collections, re-matching with other radii, shared positions); validity predicate (own point-on-polyline test, radius, abscissa sums)",
             "Each observation is unmatched or carries a point on an existing edge within the search radius with end-node distances summing to the edge length; the track itself is unchanged.",
             "Candidate completeness is not part of the statement and not demanded; index preconditions taken from the callers.", "DESIGN.md 4/C10"),
-    "C11": ("exhaustive enumeration of all 2^n marker vectors (n <= 12) + Hypothesis feature/threshold grids, partition and fold reference models",
+    "C11": ("exhaustive enumeration of all 2^n marker vectors (n <= 12) + Hypothesis feature/threshold grids and follow-up operations on the pieces (segmentation of pieces, source re-judged), partition and fold reference models",
             "split: pieces concatenate to the track (object identity), each but the last ends on a marker; segmentation: marker == own evaluation of the AND/OR threshold rule, NaN ignored.",
             "Trusts the partition model; all-NaN rows in OR mode are not demanded.", "DESIGN.md 4/C11"),
-    "C12": ("exhaustive enumeration of small cost matrices ({0,1,2}, n <= 5; {0,1}, n = 6) + Hypothesis matrices, brute-force enumeration of all 2^(n-2) partitions, both directions",
+    "C12": ("exhaustive enumeration of small cost matrices ({0,1,2}, n <= 5; {0,1}, n = 6) + Hypothesis matrices of nine numpy dtypes, repeated calls on one matrix / one track with in-place edits, built-in simplification criteria; brute-force enumeration of all 2^(n-2) partitions, both directions",
             "Returned index list must be strictly increasing from first to last candidate and its summed cost must equal the brute-force optimum for the requested direction; "
             "delegating callers (optimalSegmentation, simplify FREE modes, stop detection) are re-scored with the matrix they document.",
             "Trusts brute-force enumeration; many optimal partitions are accepted.", "DESIGN.md 4/C12"),
-    "C13": ("Hypothesis-generated tracks/networks and writer configurations (+ complete enumeration of column layouts x separators x header x time formats), write->read round-trip",
+    "C13": ("Hypothesis-generated tracks/networks and writer configurations (+ complete enumeration of column layouts x separators x header x time formats), re-export after in-place edits, sequences of writes sharing global formats; write->read round-trip",
             "CSV, GPX, network CSV and WKT files written by tracklib are read back with the matching format and compared with the generated data to the printed precision.",
             "The case itself is the oracle; KML/GeoJSON/raster are outside the statement.", "DESIGN.md 4/C13"),
-    "C14": ("Hypothesis-generated positions/bases/tracks weighted to the antimeridian, equator and near-pole classes; round-trip relations and differential against an own closed-form WGS84 conversion",
+    "C14": ("Hypothesis-generated positions/bases/tracks weighted to the antimeridian, equator and near-pole classes, histories reusing and editing base objects in place; round-trip relations and differential against an own closed-form WGS84 conversion",
             "geo<->ecef<->enu, enu(b1)<->enu(b2), Lambert-93 round trips to 1e-9 deg / 1 mm; ECEF against own closed form to 1e-6 m; base maps to (0,0,0); track conversions equal point-wise ones.",
             "Trusts the own WGS84 constants/closed form; UTM inverse and the stereographic branch are outside the statement.", "DESIGN.md 4/C14"),
-    "C15": ("Hypothesis-generated signals (isolated NaN, constants, monotone), weight lists and kernel objects; differential against an own renormalised convolution plus bracket/constant invariants",
+    "C15": ("Hypothesis-generated signals (isolated NaN, constants, monotone), weight lists and kernel objects, several kernels configured and used in one case (histories), entry points operate / filter_seq / Track.smooth; differential against an own renormalised convolution plus bracket/constant invariants",
             "Filter output == own renormalised weighted mean over in-track non-NaN samples; constants unchanged; output within window min/max; unfiltered boundaries copied; sliding windows odd, symmetric, sum 1.",
             "Windows whose usable weight is 0 are not judged.", "DESIGN.md 4/C15"),
-    "C16": ("exhaustive enumeration of all 2..3/4-fix lattice tracks + Hypothesis lattice/float tracks with loops, duplicates, collinear runs; subsequence/end-point predicates and own point-polyline distance",
+    "C16": ("exhaustive enumeration of all 2..3/4-fix lattice tracks + Hypothesis lattice/float/Python-int tracks with loops, duplicates, collinear runs, tolerances near actual deviations, repeated simplification of one Track object with in-place edits; subsequence/end-point predicates and own point-polyline distance",
             "Douglas-Peucker and Visvalingam must not fail, must return a subsequence containing first and last fix; for Douglas-Peucker every input fix within tolerance of the output polyline.",
             "No error bound is demanded for Visvalingam; dmax == tolerance ties accepted either way.", "DESIGN.md 4/C16"),
-    "C17": ("Hypothesis-generated ENU tracks with repeated positions/timestamps and extreme leg lengths; differential against cumulative hypot and neighbour chord / dt",
+    "C17": ("Hypothesis-generated ENU tracks with repeated positions/timestamps and extreme leg lengths, operation orders over a track and a part derived from it; differential against cumulative hypot and neighbour chord / dt",
             "abs_curv starts at 0, increments equal planimetric leg lengths, is idempotent; speed equals the documented centred / one-sided quotient, NaN iff dt == 0; positions and times untouched.",
             "Trusts math.hypot; 1e-9 relative tolerance.", "DESIGN.md 4/C17"),
-    "C18": ("exhaustive enumeration of all lattice track pairs (sizes <= 2/3) + Hypothesis pairs with ties; brute-force enumeration of all monotone couplings (own DP beyond 6x6), swap metamorphic relation",
+    "C18": ("exhaustive enumeration of all lattice track pairs (sizes <= 2/3) + Hypothesis pairs with ties and histories (already matched inputs, the same objects matched again after in-place moves); brute-force enumeration of all monotone couplings (own DP beyond 6x6), swap metamorphic relation",
             "Score == optimum over all couplings for p in {1,2,inf}; symmetric under swap; returned coupling valid, covering, and its realised cost == score; FDTW and compare(FRECHET) agree.",
             "Any optimal coupling is accepted; own DP cross-validated against enumeration on every enumerable case.", "DESIGN.md 4/C18"),
-    "C19": ("Hypothesis-generated collections on lattices aligned with cell borders, non-square resolutions, margins, NaN features; own cell-footprint test and Python aggregates",
+    "C19": ("Hypothesis-generated collections on lattices aligned with cell borders, non-square resolutions, margins, NaN features, per-track feature layouts, aggregate operators in any order and recomputed; own cell-footprint test and Python aggregates",
             "Every fix falls in exactly one cell whose footprint contains it; counts are conserved; each cell's count/sum/min/max/avg/median equals the Python aggregate of its non-NaN values; empty cells hold the empty aggregate.",
             "Trusts Python aggregates; 1e-9 footprint tolerance.", "DESIGN.md 4/C19"),
     "C20": ("Hypothesis-generated polylines with oblique/horizontal/vertical/zero-length segments and queries beside/beyond/on/at-vertex/far; differential against an own clamped-parameter nearest point",
